@@ -976,8 +976,12 @@ func writeEvidence(prop, tier string, seed int, reports []*HarnessReport, nat *n
 		"property_id": prop, "tier": tier, "seed": seed, "level": "model_checking",
 		"coverage": cov, "assumptions": assumes, "wall_s": round2(wall), "violations": confirmed,
 	}
-	os.MkdirAll(filepath.Join(verifDir, "evidence"), 0755)
 	b, _ := json.MarshalIndent(ev, "", " ")
+	if alt := os.Getenv("GOSYM_EVIDENCE"); alt != "" {
+		os.WriteFile(alt, b, 0644)
+		return
+	}
+	os.MkdirAll(filepath.Join(verifDir, "evidence"), 0755)
 	os.WriteFile(filepath.Join(verifDir, "evidence", prop+".json"), b, 0644)
 }
 
